@@ -67,21 +67,64 @@ def eof_unget_slack(norm):
     return 0
 
 
-def record(s, frag, conf=None, objs=None):
+CONVENTIONS = ["kw", "pos", "kw-upper", "pos-upper", "pos-title", "kw-scripting", "textfile", "bytes-override", "bytesfile-transport"]
+
+
+def spell(name, conv):
+    if conv.endswith("-upper"):
+        return name.upper()
+    if conv.endswith("-title"):
+        return name.title()
+    return name
+
+
+def call_with(p, s, frag, conv):
+    """one parse()/parseFragment() call on parser p, the arguments passed the way `conv` says.  All conventions denote the
+    SAME call: container as keyword or positionally, its name in any letter case, scripting=False spelled out, the text
+    as str, as a text file object, as UTF-8 bytes / a binary file object with the encoding stated by the caller."""
+    import io
+    src, kw = s, {}
+    if isinstance(s, str):
+        if conv == "textfile":
+            src = io.StringIO(s)
+        elif conv == "bytes-override":
+            src, kw = s.encode("utf-8"), {"override_encoding": "utf-8"}
+        elif conv == "bytesfile-transport":
+            src, kw = io.BytesIO(s.encode("utf-8")), {"transport_encoding": "utf-8"}
+    if frag:
+        name = spell(frag, conv)
+        if conv.startswith("pos"):
+            return p.parseFragment(src, name, **kw)
+        if conv == "kw-scripting":
+            return p.parseFragment(src, container=name, scripting=False)
+        return p.parseFragment(src, container=name, **kw)
+    if conv.startswith("pos") or conv == "kw-scripting":
+        return p.parse(src, False) if conv.startswith("pos") else p.parse(src, scripting=False)
+    return p.parse(src, **kw)
+
+
+def encodable(s):
+    try:
+        return isinstance(s, str) and s.encode("utf-8").decode("utf-8") == s and "\r" not in s and len(s) < 9000
+    except UnicodeError:
+        return False
+
+
+def record(s, frag, conf=None, objs=None, conv="kw"):
     """parse s non-strictly and strictly - with brand-new objects, or with the two given long-lived objects
-    (non-strict, strict) that have seen the same inputs before; returns the Trace_Strict record"""
+    (non-strict, strict) that have seen the same inputs before; returns the Trace_Strict record.  With a calling
+    convention other than "kw" the record also says whether the errors are those of the plain keyword call."""
     from html5lib import html5parser, constants
     E = constants.E
+    if conv in ("textfile", "bytes-override", "bytesfile-transport") and not encodable(s):
+        conv = "kw"
 
-    def go(strict):
+    def go(strict, cv=conv):
         p = objs[1 if strict else 0] if objs is not None else None
         if p is None:
             p = html5parser.HTMLParser(strict=strict)
         try:
-            if frag:
-                p.parseFragment(s, container=frag)
-            else:
-                p.parse(s)
+            call_with(p, s, frag, cv)
             return p, "ok", None
         except html5parser.ParseError as e:
             return p, "ParseError", e
@@ -101,7 +144,12 @@ def record(s, frag, conf=None, objs=None):
     norm = text.replace("\r\n", "\n").replace("\r", "\n")
     lines = [len(x) for x in norm.split("\n")]
     slack = eof_unget_slack(norm)
-    return {"ns": {"out": o1, "errs": rows},
+    conv_eq = True
+    if conv != "kw":
+        p0, o0, _ = go(False, "kw") if objs is None else (None, None, None)
+        if p0 is not None:
+            conv_eq = (o0, p0.errors) == (o1, p1.errors)
+    return {"ns": {"out": o1, "errs": rows}, "conv": conv, "convEq": conv_eq,
             "st": {"out": o2, "nerr": len(p2.errors), "same": p2.errors == p1.errors[:1], "msg": msg},
             "lines": lines, "slack": slack,
             "conf": {"is": conf is not None, "amp": conf[0] if conf else 0, "cap": conf[1] if conf else 0}}
@@ -148,8 +196,33 @@ def late_meta_inputs(rng, n):
 
 
 def _rec_item(item):
-    s, frag, conf = item
-    return record(s, frag, conf)
+    s, frag, conf = item[:3]
+    return record(s, frag, conf, conv=item[3] if len(item) > 3 else "kw")
+
+
+def api_equal(s, frag, conv):
+    """the module-level functions html5lib.parse / html5lib.parseFragment, arguments positional or keyword, container name
+    in any case: the tree must be the one HTMLParser().parseFragment(s, container=lower-case name) returns"""
+    import html5lib
+    from html5lib import html5parser
+    try:
+        ref = html5parser.HTMLParser().parseFragment(s, container=frag) if frag else html5parser.HTMLParser().parse(s)
+    except (Exception, RecursionError):
+        return True
+    try:
+        if frag:
+            name = spell(frag, conv)
+            got = html5lib.parseFragment(s, name) if conv.startswith("pos") else html5lib.parseFragment(s, container=name)
+            if conv.startswith("pos"):
+                got2 = html5lib.parseFragment(s, name, "etree", True)
+            else:
+                got2 = html5lib.parseFragment(s, container=name, treebuilder="etree", namespaceHTMLElements=True)
+        else:
+            got = html5lib.parse(s)
+            got2 = html5lib.parse(s, "etree", True) if conv.startswith("pos") else html5lib.parse(s, treebuilder="etree", namespaceHTMLElements=True)
+    except (Exception, RecursionError):
+        return False
+    return lc.exact(ref, "etree") == lc.exact(got, "etree") == lc.exact(got2, "etree")
 
 
 FORMISH = ["<!DOCTYPE html><title>t</title><form action=\"/s\"><p><input name=a>", "<!DOCTYPE html><title>t</title><form><p>x</p></form>",
@@ -236,6 +309,14 @@ def run(ctx):
         k = 2 if ctx.quick else 4
         for c in ctx.rng.sample(CONTAINERS[1:], k):
             items.append((s, c, None))
+    # calling conventions: every 6th / 4th (input, container) pair once more, the same call spelled differently
+    for j in range(0, len(items), 6 if ctx.quick else 4):
+        s0, c0, _ = items[j]
+        items.append((s0, c0, None, CONVENTIONS[1 + (j // 2) % (len(CONVENTIONS) - 1)]))
+    # conforming fragments (context element, content) under every convention
+    for i in range(600 if ctx.quick else 12000):
+        kind, frag_src = conform.conforming_fragment(ctx.rng)
+        items.append((frag_src, kind, (0, 0), CONVENTIONS[i % len(CONVENTIONS)]))
     nconf = 1500 if ctx.quick else 40000
     for i in range(nconf):
         feats = (i % 4 == 1, i % 4 == 2) if listed else (False, False)
@@ -252,6 +333,16 @@ def run(ctx):
             items.append((w["input"], None, (cf.get("amp", 0), cf.get("cap", 0)) if cf else None))
     recs = core.parallel(_rec_item, items, chunk=400)
     codes, crashes = set(), {}
+    napi = 0
+    for j in range(0, len(items), 23 if ctx.quick else 5):
+        s0, c0 = items[j][0], items[j][1]
+        if isinstance(s0, str):
+            cv = ["kw", "pos", "kw-upper", "pos-upper", "pos-title"][j % 5]
+            napi += 1
+            if not api_equal(s0, c0, cv):
+                ctx.violation("html5lib.parse()/parseFragment() called %s returns another tree than HTMLParser().parse/parseFragment "
+                              "with the lower-case keyword container" % cv, {"kind": "api-convention", "input": s0, "container": c0, "conv": cv})
+    ctx.notes["module_level_calls_compared"] = napi
     for it, rec in zip(items, recs):
         for e in rec["ns"]["errs"]:
             codes.add(e["code"])
@@ -269,8 +360,9 @@ def run(ctx):
     ncrash = 0
     ctx.sample({"code_to_spec_input": repr(items[len(items) // 3][0][:120]), "record": recs[len(items) // 3]})
     for tr, v in core.validate_traces(ctx, "Trace_Strict", recs, "trace", consts=consts):
-        s, frag, conf = items[idx[id(tr)]]
-        case = {"kind": "input", "input": s, "container": frag, "conforming": conf is not None, "record": tr, "verdict": v}
+        s, frag, conf = items[idx[id(tr)]][:3]
+        case = {"kind": "input", "input": s, "container": frag, "conforming": conf is not None, "conv": tr.get("conv", "kw"),
+                "record": tr, "verdict": v}
         if v["v"] == "finding":
             for nm in v["f"]:
                 if not ctx.known_finding(nm, DEFECTS.get(nm, nm), {"input": s, "container": frag}):
@@ -329,12 +421,18 @@ def replay(case):
     ctx = core.Ctx("C16", "quick", 0)
     listed = [d for d in DEFECTS if d in ctx.open_keys]
     if c.get("kind") == "input":
-        rec = record(c["input"], c.get("container"), (0, 0) if c.get("conforming") else None)
+        rec = record(c["input"], c.get("container"), (0, 0) if c.get("conforming") else None, conv=c.get("conv", "kw"))
         consts = "CONSTANT KnownDefects = {%s}\n" % c12.dset(listed)
         rej = [r for r in core.validate_traces(ctx, "Trace_Strict", [rec], "replay", consts=consts)
                if r[1]["v"] not in ("finding", "crash")]
         if rej:
             print("VIOLATION property=C16 replay=- (%s)" % rej[0][1])
+            return 1
+        print("replay: accepted")
+        return 0
+    if c.get("kind") == "api-convention":
+        if not api_equal(c["input"], c.get("container"), c["conv"]):
+            print("VIOLATION property=C16 replay=- (module-level call differs)")
             return 1
         print("replay: accepted")
         return 0
